@@ -35,7 +35,7 @@ WIDTHS = [2, 1, 1.5, 2.5, 3, 4]
 
 
 def bounds(tier):
-    return {"grids": GR_T if tier == "thorough" else GR_Q, "kernels": KERNELS, "widths": WIDTHS,
+    return {"grids": GR_T if tier == "thorough" else GR_Q, "kernels": KERNELS, "widths": WIDTHS + ([3.5, 5, 6, 0.5] if tier == "thorough" else []),
             "per-axis widths": "2-D: [2.5,1], [1,2.5]; 3-D: orderings of (1.5, 3, 2) (3 quick / all 6 thorough)", "coordinate sets": ["lattice (step 1/4 from -2.5 to N+2.5, 1-D; product of coarse lattice in 2-D/3-D)", "far", "dup", "random", "random-f32"],
             "batch": [[], [2], [2, 1]]}
 
